@@ -395,8 +395,12 @@ class Checker(object):
       "wall_s": round(time.time() - self.t0, 2),
       "violations": len(self.violations) + (1 if (self.broken and not self.violations) else 0),
     }
-    os.makedirs(os.path.join(ROOT, "evidence"), exist_ok=True)
-    with open(os.path.join(ROOT, "evidence", self.pid + ".json"), "w") as f:
+    # evidence/ only ever describes runs against /repo itself; runs against a scratch copy (VERIF_REPO, used by the
+    # mutation self-test) leave their record under build/
+    evdir = os.path.join(ROOT, "evidence") if REPO == "/repo" else os.path.join(BUILD, "evidence_scratch")
+    ev["repo"] = REPO
+    os.makedirs(evdir, exist_ok=True)
+    with open(os.path.join(evdir, self.pid + ".json"), "w") as f:
       json.dump(ev, f, indent=1, sort_keys=True, default=str)
 
 
@@ -470,6 +474,10 @@ def main(argv=None):
   sys.path.insert(0, os.path.join(ROOT, "harness"))
   sys.path.insert(0, ROOT)
   mod = importlib.import_module(a.pid)
+  # one run per property at a time (the generated case files under build/<pid>/ are per property)
+  os.makedirs(BUILD, exist_ok=True)
+  runlock = open(os.path.join(BUILD, a.pid + ".runlock"), "w")
+  fcntl.flock(runlock, fcntl.LOCK_EX)
   chk = Checker(mod, tier, seed)
   rng = random.Random(seed)
   only = None
